@@ -1,7 +1,9 @@
 import Slock.Gen.Consts
 /-!
 M-TEXT (part 1): the RESP request parser of `protocol/textparse.go` (`TextParser.ParseRequest`, driven the way
-`TextServerProtocol.Process` drives it), `BuildRequest`, `BuildResponse`, and Go's `strconv.Atoi`/`ParseInt(·,10,64)`.
+`TextServerProtocol.Process` drives it), the response parser `TextParser.ParseResponse` (driven the way
+`client.TextClientProtocol.Read` drives it; one automaton, `PState.resp` says which entry point runs it: stages 1–4 are
+literally the same code in both), `BuildRequest`, `BuildResponse`, and Go's `strconv.Atoi`/`ParseInt(·,10,64)`.
 
 The parser is a per-byte automaton.  Its persistent state `PState` is exactly what the Go struct keeps between two
 `ParseRequest` calls (`stage`, `carg[:cargIndex]`, `cargIndex`, `cargLen`, `args`, `argsCount`).  What the Go code keeps
@@ -71,7 +73,7 @@ def intToDec (i : Int) : Bytes :=
 
 /-! ## the request parser -/
 
-inductive Stage | s0 | s1 | s2 | s3 | s4
+inductive Stage | s0 | s1 | s2 | s3 | s4 | s5 | s6
   deriving DecidableEq, Repr, Inhabited
 
 inductive Phase
@@ -89,6 +91,10 @@ structure PState where
   cargLen : Int := 0
   args : List Bytes := []
   argsCount : Int := 0
+  /-- which entry point drives the automaton: `ParseRequest` (false) or `ParseResponse` (true) -/
+  resp : Bool := false
+  /-- `argsType`: 0 request, 1 `+`, 2 `-`, 3 `$`, 4 `*` -/
+  ty : Nat := 0
   deriving DecidableEq, Repr, Inhabited
 
 structure Loc where
@@ -160,9 +166,61 @@ def step4 (s : PState) (l : Loc) (b : UInt8) : Step :=
   | .data left => dataByte s b left
   | .scan => scanByte s l b
 
+/-- `strings.TrimRight(s, "\r")` -/
+def stripCR (s : Bytes) : Bytes := (s.reverse.dropWhile (· = 13)).reverse
+
+/-- `self.args[k] = f(self.args[k])`; `none` = index out of range -/
+def modifyAt (args : List Bytes) (k : Nat) (f : Bytes → Bytes) : Option (List Bytes) :=
+  match args[k]? with
+  | some a => some (args.set k (f a))
+  | none => none
+
+/-- stage 0 of `ParseResponse`: the reply kind -/
+def step0R (s : PState) (b : UInt8) : Step :=
+  if b = 43 then .cont { s with args := s.args ++ [[]], argsCount := 0, ty := 1, stage := .s5 } ⟨some b, .entry⟩
+  else if b = 45 then .cont { s with args := s.args ++ [[], []], argsCount := 0, ty := 2, stage := .s6 } ⟨some b, .entry⟩
+  else if b = 36 then .cont { s with ty := 3, stage := .s3 } ⟨some b, .entry⟩
+  else if b = 42 then .cont { s with ty := 4, stage := .s1 } ⟨some b, .entry⟩
+  else .err
+
+/-- stage 5: the text of a `+` reply (`args[0]`) or the message of a `-` reply (`args[1]`), byte by byte
+(after the repair "fix: ParseResponse accumulates the text of + and - replies byte-exactly across reads …":
+every byte before the LF is appended, the trailing CRs are stripped at the LF) -/
+def step5 (s : PState) (l : Loc) (b : UInt8) : Step :=
+  let k := if s.ty = 2 then 1 else 0
+  if b = 10 then
+    match modifyAt s.args k stripCR with
+    | none => .panic
+    | some args' =>
+      if lfBad l.prev then .err
+      else .emit args' { s with args := [], argsCount := 0, stage := .s0 } ⟨some b, .entry⟩
+  else
+    match modifyAt s.args k (· ++ [b]) with
+    | none => .panic
+    | some args' => .cont { s with args := args' } ⟨some b, .entry⟩
+
+/-- stage 6: the type word of a `-` reply (`args[0]`), up to the first blank or the LF -/
+def step6 (s : PState) (l : Loc) (b : UInt8) : Step :=
+  if b = 32 then
+    match modifyAt s.args 0 stripCR with
+    | none => .panic
+    | some args' => .cont { s with args := args', stage := .s5 } ⟨some b, .entry⟩
+  else if b = 10 then
+    match modifyAt s.args 0 stripCR with
+    | none => .panic
+    | some args' =>
+      if lfBad l.prev then .err
+      else .emit args' { s with args := [], argsCount := 0, stage := .s0 } ⟨some b, .entry⟩
+  else
+    match modifyAt s.args 0 (· ++ [b]) with
+    | none => .panic
+    | some args' => .cont { s with args := args' } ⟨some b, .entry⟩
+
 def step (s : PState) (l : Loc) (b : UInt8) : Step :=
   match s.stage with
-  | .s0 => if b = 42 then .cont { s with stage := .s1 } ⟨some b, .entry⟩ else .err
+  | .s0 =>
+    if s.resp then step0R s b
+    else if b = 42 then .cont { s with ty := 0, stage := .s1 } ⟨some b, .entry⟩ else .err
   | .s1 =>
     match numStep s.num l.prev b with
     | .more n => .cont { s with num := n } ⟨some b, .entry⟩
@@ -175,28 +233,33 @@ def step (s : PState) (l : Loc) (b : UInt8) : Step :=
     | .done v => .cont { s with cargLen := v, num := [], got := 0, stage := .s4 } ⟨some b, .entry⟩
     | .err => .err
   | .s4 => step4 s l b
+  | .s5 => if s.resp then step5 s l b else .err   -- unreachable from `ParseRequest`
+  | .s6 => if s.resp then step6 s l b else .err
 
 abbrev Cmds := List (List Bytes)
 
+/-- what the caller takes at each finished parse: `(argsType, args)` -/
+abbrev Replies := List (Nat × List Bytes)
+
 inductive Run
-  | ok (cmds : Cmds) (s : PState) (l : Loc)
-  | err (cmds : Cmds)
-  | panic (cmds : Cmds)
+  | ok (cmds : Replies) (s : PState) (l : Loc)
+  | err (cmds : Replies)
+  | panic (cmds : Replies)
   deriving DecidableEq, Repr
 
 /-- one buffer, from the given chunk-local state -/
-def runBytes (s : PState) (l : Loc) (acc : Cmds) : Bytes → Run
+def runBytes (s : PState) (l : Loc) (acc : Replies) : Bytes → Run
   | [] => .ok acc s l
   | b :: bs =>
     match step s l b with
     | .cont s' l' => runBytes s' l' acc bs
-    | .emit c s' l' => runBytes s' l' (acc ++ [c]) bs
+    | .emit c s' l' => runBytes s' l' (acc ++ [(s'.ty, c)]) bs
     | .err => .err acc
     | .panic => .panic acc
 
 /-- `Process`: one `ReadFromConn` per chunk; the chunk-local state starts fresh in every chunk.
 (An empty read never happens — `conn.Read` returns ≥ 1 byte or an error — and is a no-op here.) -/
-def feed (s : PState) (acc : Cmds) : List Bytes → Run
+def feed (s : PState) (acc : Replies) : List Bytes → Run
   | [] => .ok acc s {}
   | c :: cs =>
     match runBytes s {} acc c with
@@ -208,10 +271,20 @@ def parseAll (chunks : List Bytes) : Run := feed {} [] chunks
 inductive Status | done | pending | err | panic
   deriving DecidableEq, Repr
 
+/-- request side: the argument lists -/
 def Run.outcome : Run → Cmds × Status
+  | .ok c s _ => (c.map (·.2), if s.stage = .s0 then .done else .pending)
+  | .err c => (c.map (·.2), .err)
+  | .panic c => (c.map (·.2), .panic)
+
+/-- response side: `(argsType, args)` per reply -/
+def Run.outcomeR : Run → Replies × Status
   | .ok c s _ => (c, if s.stage = .s0 then .done else .pending)
   | .err c => (c, .err)
   | .panic c => (c, .panic)
+
+/-- `client.TextClientProtocol.Read`: the same loop around `ParseResponse` -/
+def parseAllR (chunks : List Bytes) : Run := feed { resp := true } [] chunks
 
 /-! ## BuildRequest / BuildResponse -/
 
